@@ -148,6 +148,23 @@ pub fn chasers() -> Vec<Chaser> {
     c.max_loops_allowed = 2;
     c.reach_loops = 2;
     v.push(c);
+    // loops opened at the prompt (or left open by an earlier run) do not count against a later RUN: it starts with
+    // none of them, however many there were (abandoning loops does not accumulate state)
+    for (k, start) in [(20usize, "RUN"), (32, "RUN"), (13, "RUN")] {
+        let mut lines = vec![];
+        for i in 0..20 {
+            lines.push(format!("{} FOR V{} = 1 TO 1", 10 + i, i));
+        }
+        lines.push("900 PRINT \"in\"".into());
+        for i in 0..k {
+            lines.push(format!("FOR P{} = 1 TO 1", i));
+        }
+        let mut c = ch("prompt-loops-then-run", &[], start, None);
+        c.lines = lines;
+        c.max_loops_allowed = 20;
+        c.reach_loops = 20;
+        v.push(c);
+    }
     let mut c = ch("gosub-never-returns-via-goto", &["10 GOSUB 100", "20 END", "100 C = C + 1 : IF C < 100 THEN GOTO 10", "110 RETURN"], "RUN", Some(STACK));
     c.reach_stack = 32;
     v.push(c);
